@@ -126,6 +126,9 @@ class History:
         except SyntaxError:
             got = None
             t = None
+        except BaseException as e:  # pylint:disable=broad-except
+            got = ["raises", type(e).__name__]  # e.g. RecursionError when a corrupted cache entry has become cyclic
+            t = None
         if t is not None:
             self.held.append(t)
             got = canon(t)
